@@ -270,6 +270,80 @@ def run(repo, lean_dir, keep=None):
             "failed_names": sorted({n for n, _ in failed}), "unavailable": unavailable, "definitions": defs}
 
 
+# ---- rate_limiter.RateLimiter.parse_option: the table of interval names (C18) ----------------------------------------------------
+
+def run_intervals(repo, lean_dir):
+    """the `if interval in (...): interval = N / elif … / else: raise ValueError` chain of parse_option, translated to a Lean function on
+    the lower-cased name, proved equal to the model's `parseInterval` for every string"""
+    unavailable, failed, text = [], [], ""
+    try:
+        tree = ast.parse(open(os.path.join(repo, "nostr_relay", "rate_limiter.py")).read())
+        fn = None
+        for n in ast.walk(tree):
+            if isinstance(n, ast.FunctionDef) and n.name == "parse_option":
+                fn = n
+        if fn is None:
+            raise Unavailable("parse_option is gone")
+        chain = None
+        for n in ast.walk(fn):
+            if isinstance(n, ast.If) and isinstance(n.test, ast.Compare) and isinstance(n.test.left, ast.Name) \
+                    and n.test.left.id == "interval" and isinstance(n.test.ops[0], ast.In):
+                chain = n
+                break
+        if chain is None:
+            raise Unavailable("no `if interval in (...)` chain")
+        lowered = any(isinstance(n, ast.Assign) and isinstance(n.value, ast.Call) and isinstance(n.value.func, ast.Attribute)
+                      and n.value.func.attr == "lower" and isinstance(n.targets[0], ast.Name) and n.targets[0].id == "interval"
+                      for n in ast.walk(fn))
+        if not lowered:
+            raise Unavailable("the interval name is not lower-cased before the comparison")
+        arms = []
+        node = chain
+        while True:
+            names = node.test.comparators[0]
+            if not (isinstance(names, ast.Tuple) and all(isinstance(x, ast.Constant) and isinstance(x.value, str) for x in names.elts)):
+                raise Unavailable("interval names are not a tuple of literals")
+            if not (len(node.body) == 1 and isinstance(node.body[0], ast.Assign) and isinstance(node.body[0].value, ast.Constant)
+                    and isinstance(node.body[0].value.value, int)):
+                raise Unavailable("arm is not `interval = <int>`")
+            arms.append(([x.value for x in names.elts], node.body[0].value.value))
+            if len(node.orelse) == 1 and isinstance(node.orelse[0], ast.If):
+                node = node.orelse[0]
+                if not (isinstance(node.test, ast.Compare) and isinstance(node.test.ops[0], ast.In)):
+                    raise Unavailable("elif shape")
+                continue
+            if not (len(node.orelse) == 1 and isinstance(node.orelse[0], ast.Raise)):
+                raise Unavailable("the chain does not end in a raise")
+            break
+        body = ""
+        for names, val in arms:
+            cond = " ∨ ".join('l = "%s"' % x.replace('"', '\\"') for x in names)
+            body += "if %s then some %d else " % (cond, val)
+        body += "none"
+        text = "\n".join(["import NostrRelay.Model.RateLimiter", "open NostrRelay",
+                          "/-! generated from /repo/nostr_relay/rate_limiter.py (parse_option) — do not edit -/",
+                          "def XR.parseInterval (l : String) : Option Int := " + body, "",
+                          "theorem tie_parse_interval (s : String) : XR.parseInterval s.toLower = NostrRelay.RateLimiter.parseInterval s := by",
+                          "  unfold XR.parseInterval NostrRelay.RateLimiter.parseInterval", "  rfl", ""])
+    except Unavailable as ex:
+        unavailable.append(("parse_option", str(ex)))
+    except Exception as ex:
+        unavailable.append(("parse_option", "%s: %s" % (type(ex).__name__, ex)))
+    if text:
+        d = tempfile.mkdtemp(prefix="tier-")
+        path = os.path.join(d, "TieIntervals.lean")
+        open(path, "w").write(text)
+        try:
+            p = subprocess.run(["lake", "env", "lean", path], cwd=lean_dir, stdout=subprocess.PIPE, stderr=subprocess.STDOUT, text=True,
+                               timeout=600)
+        finally:
+            shutil.rmtree(d, ignore_errors=True)
+        if p.returncode != 0 or ": error" in p.stdout:
+            failed.append(("tie_parse_interval", p.stdout.strip()[-300:]))
+    return {"status": "broken" if failed else ("partial" if unavailable else "checked"), "theorems": ["tie_parse_interval"] if text else [],
+            "failed": failed, "failed_names": sorted({n for n, _ in failed}), "unavailable": unavailable, "definitions": {"parseInterval": text}}
+
+
 if __name__ == "__main__":
     import json
     import sys
@@ -277,3 +351,4 @@ if __name__ == "__main__":
     here = os.path.dirname(os.path.dirname(os.path.dirname(os.path.abspath(__file__))))
     r = run(repo, os.environ.get("VERIF_LEAN") or os.path.join(here, "lean"), keep=sys.argv[2] if len(sys.argv) > 2 else None)
     print(json.dumps(r, indent=1))
+    print(json.dumps(run_intervals(repo, os.environ.get("VERIF_LEAN") or os.path.join(here, "lean")), indent=1))
